@@ -604,21 +604,25 @@ namespace DFS
     std::optional<DFS::Encoding> encoding_hint;
     std::optional<bool> interleaving_hint;
     std::optional<int> sides_hint;
-    if (DFS::stringutil::ends_with(name, ".ssd") || DFS::stringutil::ends_with(name, ".sdd"))
+    // The hints describe the image itself, so for a compressed image
+    // (foo.ssd.gz) they come from the name without the ".gz".
+    std::string base(name);
+    DFS::stringutil::remove_suffix(&base, ".gz");
+    if (DFS::stringutil::ends_with(base, ".ssd") || DFS::stringutil::ends_with(base, ".sdd"))
       {
 	interleaving_hint = false;
 	// might be 1 or 2 sides.
       }
-    if (DFS::stringutil::ends_with(name, ".dsd") || DFS::stringutil::ends_with(name, ".ddd"))
+    if (DFS::stringutil::ends_with(base, ".dsd") || DFS::stringutil::ends_with(base, ".ddd"))
       {
 	interleaving_hint = true;
 	sides_hint = 2;
       }
-    if (DFS::stringutil::ends_with(name, ".ssd") || DFS::stringutil::ends_with(name, ".dsd"))
+    if (DFS::stringutil::ends_with(base, ".ssd") || DFS::stringutil::ends_with(base, ".dsd"))
       {
 	encoding_hint = DFS::Encoding::FM;
       }
-    if (DFS::stringutil::ends_with(name, ".sdd") || DFS::stringutil::ends_with(name, ".ddd"))
+    if (DFS::stringutil::ends_with(base, ".sdd") || DFS::stringutil::ends_with(base, ".ddd"))
       {
 	encoding_hint = DFS::Encoding::MFM;
       }
